@@ -189,7 +189,7 @@ func checkC15(c RenameCase) Verdict {
 	} else {
 		src = c.C.source(true)
 		bc := *c.C
-		bc.Stmts, bc.Labels, bc.Before, bc.After, bc.Externs = nil, nil, nil, nil, nil
+		bc.Stmts, bc.Labels, bc.Before, bc.After, bc.Externs, bc.EndLabels = nil, nil, nil, nil, nil, nil
 		hdr = bc.source(true)
 	}
 	src2 := renameSource(src, c.Ren)
@@ -285,6 +285,9 @@ var propC15 = &Prop[RenameCase]{
 			}
 			for _, l := range c.Labels {
 				add(l.Name)
+			}
+			for _, l := range c.EndLabels {
+				add(l)
 			}
 			for _, g := range c.globals() {
 				add(g)
